@@ -320,6 +320,29 @@ func (i *interpreter) callNative(fr *frame, fn *ssa.Function, name string, args 
 			return r, true
 		}
 	}
+	if pp == "regexp" && fn.Signature.Recv() != nil && len(args) > 0 {
+		// any other method of a compiled regexp: run it on the host's regexp (string arguments are
+		// concretised by forking); Go's regexp package is the stated oracle of C18
+		if cell, ok := args[0].(*value); ok && cell != nil {
+			if st, ok := (*cell).(structure); ok && len(st) == 1 {
+				if pat, ok := st[0].(string); ok {
+					if m := reflect.ValueOf(regexp.MustCompile(pat)).MethodByName(fn.Name()); m.IsValid() {
+						rest := make([]value, len(args)-1)
+						for k, a := range args[1:] {
+							switch a.(type) {
+							case sstr:
+								rest[k] = i.concString(a)
+							default:
+								rest[k] = a
+							}
+						}
+						i.noteStub(name)
+						return i.bridge(m.Interface(), rest), true
+					}
+				}
+			}
+		}
+	}
 	if (pp == "fmt" || pp == "log" || pp == "os") && fn.Signature.Recv() == nil {
 		i.noteStub(name)
 		return i.fmtModel(fn, name, args), true
@@ -612,6 +635,10 @@ func init() {
 			// Go's regexp is the stated oracle: matching is an uninterpreted predicate of
 			// (compiled pattern, subject); the harness reference uses the same function.
 			pat := (*a[0].(*value)).(structure)[0].(string)
+			if deepConcrete(a[1]) {
+				// concrete subject: the host's regexp decides (exact)
+				return regexp.MustCompile(pat).MatchString(i.concString(a[1]))
+			}
 			return i.ufCall("re:"+pat, []value{iface{types.Typ[types.String], a[1]}}, types.Bool)
 		},
 		"math/bits.Len64": func(i *interpreter, fr *frame, a []value) value { return i.len64(a[0]) },
